@@ -266,6 +266,54 @@ def model_table(drv_lines_runner, hdr, cols, rows):
     return f"T {al} {nc} {nrows} {nonempty} " + " ".join(map(str, counts))
 
 
+# ----------------------------------------------------------------------------- premise of Parse_valid_partial2
+CELL_DOCS = ["| a\\ |\n|---|\n| b  |\n", "| a |\n|---|\n| b\\\n", "| a  \n|---|\n| b\\", "| a |\r|---|\r| b\\ |\r| c  |\r\n", "x | y\n--|--\n1 | 2\\\n3 | 4  \n",
+             "| &#10; |\n|---|\n| &#13; x |\n", "| <a\nb> |\n|---|\n", "|a|\n|-|\n|`x\n", "- | a\\ |\n  |---|\n  | b  |\n", "> | a |\n> |---|\n> | b\\\n> c\n",
+             "[^1]: | a |\n      |---|\n      | x[^1]\\ |\n\ny[^1]\n", "p\nq | r\\\n--|--\ns  \n", "| a \\| b\\ |\n|---|\n", "||a\\||\n|-|\n||b  ||\n"]
+
+
+def model_report(c, rng, n):
+    """driver op `pvalid` = Spec/ParseValidSpec.v parse_valid_report on generated documents: `ok 1 1` expected everywhere
+    (premise bcells_ok holds; structurally_valid holds of the tree parse_document_model returns).  The oracle of a
+    document is asked from the compiled library (harness op parseu), as in parse_tie."""
+    from checks import parse_tie
+    docs = list(CELL_DOCS) + list(COMBO_DOCS)
+    while len(docs) < n:
+        r = rng.random()
+        docs.append(table_doc(rng) if r < 0.5 else struct_doc(rng) if r < 0.9 else " ".join(rng.choice(CELLS) for _ in range(rng.choice([1, 3, 6]))) + "\n")
+    cases = []
+    for d in docs:
+        try:
+            md = d.encode("utf-8")
+        except UnicodeEncodeError:
+            continue
+        o = gen_opts(rng)
+        if rng.random() < 0.7:
+            o["table"] = True
+        cases.append((docgen.opts_token({k: v for k, v in o.items() if k not in ("width", "header_ids")}), md))
+    real = vlib.run_lines(vlib.VH["debug"], parse_tie.harness_lines(cases), timeout=900)
+    jobs = []
+    for (o, md), a in zip(cases, real):
+        r = parse_tie.model_line(o, md, a)
+        if r is not None:
+            jobs.append((o, md, r[1].replace("parse_model", "pvalid", 1)))
+    ans = vlib.run_lines(vlib.DRIVER, [j[2] for j in jobs], timeout=1800)
+    tally = {}
+    for (o, md, line), m in zip(jobs, ans):
+        tally[m] = tally.get(m, 0) + 1
+        c.count(b"pvalid:" + o.encode() + b":" + md, md.count(b"|") > 2)
+        if m == "ok 1 1" or m == "none":
+            continue
+        case = {"doc": hx(md), "opts": o, "line": line[:4000]}
+        if m == "ok 0 1" or m == "ok 0 0":
+            c.problem("proof", "Parse_valid_partial2.premise", f"bcells_ok is FALSE of the block tree of the parser model (a TableCell content holds CR / LF): `{m}` - the premise of "
+                      f"Parse_valid_partial2 fails for this document" + ("; the final tree is NOT structurally valid" if m.endswith("0") else ""), case)
+        else:
+            c.problem("proof", "Parse_valid_report", f"driver pvalid answers `{m[:200]}` (premise true, conclusion false contradicts Parse_valid_report_sound)", case)
+    c.cov["spec_checks"]["model trees (parse_document_model): premise bcells_ok of Parse_valid_partial2 holds and Spec.Valid.structurally_valid holds (driver op pvalid)"] = len(jobs)
+    c.cov["model_report"] = {"cases": len(jobs), "answers": tally, "expected": "ok 1 1 (premise bcells_ok, structurally_valid)"}
+
+
 # ----------------------------------------------------------------------------- main
 def main(tier):
     c = vlib.Check("C04", tier)
@@ -290,6 +338,9 @@ def main(tier):
     # the FINAL tree: Parse_valid_partial / Parse_shape (Props/Parse.v) about Model/Parse.v parse_document_model, the whole
     # parser as one function, tied end to end to parse_document here
     layerc.whole(c, tier, 0.25 if quick else 0.5)
+    # Parse_valid_partial2 (Props/Parse.v): structurally_valid of the final tree under the premise bcells_ok (no CR / LF in
+    # the content of a TableCell of the block tree).  Premise and conclusion are evaluated on the MODEL's own trees
+    model_report(c, rng, 300 if quick else 6000)
 
     # ---- tables at the auto-completion cap (500000 cells): every row the parser keeps has exactly |alignments| cells
     capdocs = [(1000, [1] * 520), (700, [2] * 800), (65535, [1] * 9)]
@@ -447,7 +498,7 @@ def main(tier):
     if recs:
         c.cov["samples"].append({"doc": recs[0].doc[:200], "opts": docgen.opts_token(recs[0].opts), "validator": recs[0].valid, "model": mm.get(id(recs[0]), "-")})
     c.cov["partial_clauses"] = [
-        "`forall input options, structurally_valid (parse options input)` is proved in part: Model/Parse.v parse_document_model is the whole parser as one Coq function (tied end to end, correspondence parser.whole); Props/Parse.v Parse_valid_partial proves that its result is the composition (final_tree_sp) of a structurally valid block tree (Blocks_valid: containment, root, heading levels, table shape and column counts) with forests whose values are all inline kinds, and that the final tree satisfies the root, heading-level and table-shape clauses; NOT proved (Parse_valid_full_statement): the containment relation of Node::validate below the leaves (which inline may contain which; the children of a TableCell) and the column-count equation for the final tree - those are evaluated on every tree the real parser returns in this run",
+        "`forall input options, structurally_valid (parse options input)` is proved up to one premise: Model/Parse.v parse_document_model is the whole parser as one Coq function (tied end to end, correspondence parser.whole); Props/Parse.v Parse_valid_partial2 proves Spec.Valid.structurally_valid of every tree it returns (containment at every edge above AND below the leaves - Parse_inline_forest_valid, Parse_post_forest_valid: Link / Image / Emph / WikiLink / ... accept their children, literal kinds have none; footnote pass, task-list effects and the second attach preserve it - root, heading levels, lists, table shape and the column-count equation) PROVIDED the content of every TableCell of the block tree holds neither CR nor LF (Spec/ParseValidSpec.v bcells_ok: a TableCell accepts every inline kind but SoftBreak / LineBreak, which the inline parser makes exactly at a CR / LF); Parse_valid_no_table proves it without premise when extension.table is off; NOT proved (Parse_valid_full_statement): the premise for every input, i.e. that table.rs::row cuts cells free of line ends out of one line (the class of scanners::table_cell excludes CR and LF) and that the block phase never appends a line to a TableCell - premise and conclusion are evaluated on the model's trees of generated documents in this run (driver op pvalid), and validate() on every tree the real parser returns",
         "the formatter clause is proved for the HTML and XML renderer models (valid, S2, S3 => Ok); for the CommonMark formatter it is observed only (no panic on any parser tree of this run)",
         "table builder: the arithmetic of try_opening_header / try_opening_row is modelled and proved; cell splitting (fn row) enters as a parameter",
         "links: see C04_links (acyclicity is not implied by link consistency)"]
